@@ -297,7 +297,7 @@ static bool convert_int(ts_parser_state_t *tpsp)
 {
     char *end;
 
-    tpsp->u.tps_int = strtol(tpsp->tps_text, &end, 0);
+    tpsp->u.tps_int = strtol(tpsp->tps_text, &end, 10);
     return end > tpsp->tps_text && *end == '\000';
 }
 
